@@ -156,8 +156,16 @@ Inductive adc_kind := Simple | Sar | Sar0.
 
 Record adc_case := {
   kind : adc_kind; bits : Z; vmin : b64; vmax : b64; xs : list b64;   (* xs sorted ascending *)
-  observed : option (Z * list Z)
+  observed : option (Z * list Z);
+  twin : option (list Z)   (* Sar0 only: what the noise-free converter returned on the same frame *)
 }.
+
+Fixpoint listZ_eqb (a b : list Z) : bool :=
+  match a, b with
+  | [], [] => true
+  | x :: a', y :: b' => (x =? y) && listZ_eqb a' b'
+  | _, _ => false
+  end.
 
 Definition model_of (ch : dtype_chain) (c : adc_case) : option (Z * list (option Z)) :=
   match kind c with
@@ -176,7 +184,9 @@ Definition case_violates (c : adc_case) : bool :=
   | Some (w, cs) =>
       negb (match kind c with
             | Simple => simple_spec (bits c) (vmin c) (vmax c) (xs c) w cs
-            | _ => sar_spec (bits c) (xs c) w cs
+            | Sar => sar_spec (bits c) (xs c) w cs
+            | Sar0 => sar_spec (bits c) (xs c) w cs
+                      && match twin c with Some ts => listZ_eqb ts cs | None => false end
             end)
   end.
 
